@@ -39,6 +39,8 @@ static sqfs_object_t *id_table_copy(const sqfs_object_t *obj)
 	if (copy == NULL)
 		return NULL;
 
+	sqfs_object_init(copy, id_table_destroy, id_table_copy);
+
 	if (array_init_copy(&copy->ids, &tbl->ids) != 0) {
 		free(copy);
 		return NULL;
